@@ -195,3 +195,42 @@ func cliFloodProbe(v6 bool) string {
 	closeFn()
 	return res
 }
+
+// Probe "identical answers" of oracles c10 / c12 (virtual time): successive calls on ONE
+// client that reuse the transaction id (the caller sends the same message again, as a
+// renewing or re-soliciting client does) are answered by the server with the very same
+// bytes each time, a few milliseconds after the request and well within a second of each
+// other.  Every call returns that answer after exactly one transmission: what the client
+// remembers of an earlier datagram must not make it deaf to the next identical one.
+// (seeded change C10-13: duplicate suppression in the receive loop, state that survives
+// from one call into the next.)
+func cliIdenticalAnswersProbe(v6 bool, calls int) string {
+	var what string
+	status := inBubble(20*time.Second, func() {
+		start := time.Now()
+		conn := cli_newScriptConn(func() int64 { return int64(time.Since(start)) })
+		cl := newClient(v6, conn, 500*time.Millisecond, 2, -1)
+		x := uint32(cliMXidBase + 7)
+		answer := datagramFor(v6, "acc", x, 0)
+		for k := 0; k < calls && what == ""; k++ {
+			sent0 := len(conn.snapshot())
+			done := make(chan string, 1)
+			go func() {
+				done <- cl.call(context.Background(), x, func(class byte, idx int) bool { return class == 'A' }, false)
+			}()
+			time.Sleep(5 * time.Millisecond)
+			conn.inject(append([]byte{}, answer...))
+			out := <-done
+			sent := len(conn.snapshot()) - sent0
+			if out != "resp0" || sent != 1 {
+				what = fmt.Sprintf("call %d of %d identical exchanges on one client (same transaction id, byte-identical answer 5 ms after the request, %d ms after the previous answer) ended with %s after %d transmissions; want the answer after 1", k+1, calls, 105, out, sent)
+			}
+			time.Sleep(100 * time.Millisecond)
+		}
+		cl.close()
+	})
+	if status != "ok" && what == "" {
+		what = "identical-answers probe: bubble ended with " + status
+	}
+	return what
+}
